@@ -650,7 +650,7 @@ class Body:
     def show_term(self, t):
         k = t["k"]
         if k == "call":
-            name = short_callee(t.get("resolved") or t.get("callee") or "?dyn")
+            name = call_name(t) or "?dyn"
             if "callee" not in t:
                 name = "dyn(%s)" % self.show_operand(t["callee_dyn"])
             return "%s = %s(%s) -> bb%s" % (
@@ -832,7 +832,21 @@ def call_name(t):
         tr = split_path(strip_mods(t["trait"]))[-1]
         st = strip_mods(t.get("self_ty", "_"))
         return "<%s as %s>::%s" % (st, tr, t["assoc"])
+    if "assoc" in t and "self_ty" in t:
+        st = strip_mods(t["self_ty"])
+        if st.startswith("["):
+            st = "slice"
+        elif st.startswith("&") or st.startswith("*"):
+            st = st.lstrip("&*").replace("mut ", "").replace("const ", "")
+            st = "slice" if st.startswith("[") else st
+        return "%s::%s" % (strip_generic_params(st), t["assoc"])
     return callee_name(t)
+
+
+def mname(t):
+    """`Trait::method` / `Type::method` / `function` of a call terminator"""
+    n = call_name(t)
+    return None if n is None else method_name(n)
 
 
 def callee_base(t, resolved=True):
